@@ -441,3 +441,20 @@ func (g *Gen) anyCase(stream int) (s, chars []byte) {
 	}
 	return
 }
+
+func init() {
+	// keep only code points that really are alone in their folding orbit
+	var keep []string
+	for _, t := range caselessTokens {
+		ok := true
+		for _, r := range t {
+			if len(orbitOf(r)) != 1 {
+				ok = false
+			}
+		}
+		if ok {
+			keep = append(keep, t)
+		}
+	}
+	caselessTokens = keep
+}
